@@ -12,6 +12,7 @@ import EaselModel.Random.Consts
 import EaselModel.Random.UniPosTerm
 import EaselModel.Random.LcgTerm
 import EaselModel.Random.RollSpec
+import EaselModel.Random.SamplersTerm
 /-! # C09 — property theorems (statements + glue only; lemmas live in Random/*.lean)
 
 Every theorem quantifies over all seeds / all stream positions / all states; none is bounded. -/
@@ -529,9 +530,38 @@ theorem uniformPositive_is_first_nonzero_word (r0 : Rng) (hk : r0.kind = .mersen
   rw [Nat.zero_add] at hst
   exact ⟨i, hi, hz, hne, fun fuel hf => Rng.uniPos_first seed i _ k hst hz hne fuel (by omega)⟩
 
+/-- `esl_rnd_mem` and `esl_rnd_floatstring` (compositions of rolls) always return on the Mersenne Twister, for EVERY seed and history:
+    with fuel `≥ 19999` the model answers `.ok` — never `nofuel`, never `fault` — with exactly `n` bytes resp. 1..19 characters -/
+theorem mem_floatstring_total (r0 : Rng) (hk : r0.kind = .mersenne) (seed : UInt32) (k n fu : Nat) (hf : 19999 ≤ fu) :
+    (∃ bs r', rndMem Rng.next fu n [] ((r0.initWith seed).draws k).2 = .ok (bs, r') ∧ bs.length = n ∧ ∀ b ∈ bs, b < 256) ∧
+    (∃ cs r', floatString Rng.next fu ((r0.initWith seed).draws k).2 = .ok (cs, r') ∧ 1 ≤ cs.length ∧ cs.length ≤ 19) := by
+  have hs := Rng.onStream_draws _ seed 0 (Rng.onStream_initWith r0 hk seed) k
+  obtain ⟨bs, r1, _, h1, _⟩ := rndMem_tot seed fu hf n [] _ _ hs
+  obtain ⟨cs, r2, _, h2, _⟩ := floatString_tot seed fu hf _ _ hs
+  exact ⟨⟨bs, r1, h1, mem_bytes Rng.next fu n _ bs r1 h1⟩, ⟨cs, r2, h2, floatstring_fits Rng.next fu _ cs r2 h2⟩⟩
+
+/-- `esl_rnd_UniformPositive` on any numeric carrier, `esl_rnd_Gamma(a)` when the code's own test `a == floor(a) && a < 12` selects
+    `gamma_integer`, and `esl_rnd_Dirichlet` on such `alpha` (e.g. `alpha = NULL`): always return, for every NON-ZERO seed and history
+    (their only loop is `UniformPositive`); the other Gamma regimes (Ahrens, fraction) and Gaussian have floating-point acceptance
+    tests and keep fuel -/
+theorem gamma_integer_dirichlet_total {F : Type} [SOps F] (r0 : Rng) (hk : r0.kind = .mersenne) (seed : UInt32) (hs : seed ≠ 0)
+    (k fu fuel : Nat) (hf : 624 ≤ fu) (a : F) (ha : (SOps.beq a (SOps.floor a) && SOps.lt a (SOps.ofNat 12)) = true) (alpha : List F)
+    (hal : ∀ b ∈ alpha, (SOps.beq b (SOps.floor b) && SOps.lt b (SOps.ofNat 12)) = true) :
+    (∃ u r', uniPos (F := F) Rng.next ((r0.initWith seed).draws k).2 fu = .ok (u, r')) ∧
+    (∃ x r', gamma Rng.next fu fuel a ((r0.initWith seed).draws k).2 = .ok (x, r')) ∧
+    (∃ p r', dirichlet Rng.next fu fuel alpha ((r0.initWith seed).draws k).2 = .ok (p, r')) := by
+  have hst := Rng.onStream_draws _ seed 0 (Rng.onStream_initWith r0 hk seed) k
+  obtain ⟨u, r1, _, h1, _⟩ := uniPos_tot (F := F) seed hs _ _ hst fu hf
+  obtain ⟨x, r2, _, h2, _⟩ := gamma_integer_branch_tot seed hs fu fuel hf a ha _ _ hst
+  obtain ⟨p, r3, _, h3, _⟩ := dirichlet_integer_tot seed hs fu fuel hf alpha hal _ _ hst
+  exact ⟨⟨u, r1, h1⟩, ⟨x, r2, h2⟩, ⟨p, r3, h3⟩⟩
+
 /-! non-vacuity: the hypotheses are satisfiable (`n = 6`, `seed = 42`), and the bound is about a real phenomenon: the all-zero
     table IS a fixed point of the refill (it is only unreachable), so no bound can hold for an arbitrary table content -/
 example : (0 : Nat) < 6 ∧ 6 < 2 ^ 32 ∧ (42 : UInt32) ≠ 0 ∧ (19999 : Nat) ≤ 1000000 := by decide
 example : twist32 0 0 0 = 0 ∧ temper32 0 = 0 := by decide
+/-- the `gamma_integer` test holds of `a = 1` (the `alpha = NULL` case of Dirichlet) over `ℝ` -/
+example : (SOps.beq (1 : ℝ) (SOps.floor (1 : ℝ)) && SOps.lt (1 : ℝ) (SOps.ofNat 12)) = true := by
+  simp [SOps.beq, SOps.floor, SOps.lt, SOps.ofNat]
 
 end EaselModel.Props.C09
